@@ -176,6 +176,27 @@ func init() {
 				oracleFail("C19", "sign-mutates", sx.A(sb.String()), "SignSteps changed more than the signatures:\n"+signedBefore+"\n"+after)
 			}
 			signature.SignSteps(context.Background(), shared.Steps, key.priv, "repo")
+			// a signature whose field list is in another order (a different signer's) is as valid; verifying it
+			// must not reorder it
+			if r%2 == 0 {
+				var rev func(ss pipeline.Steps)
+				rev = func(ss pipeline.Steps) {
+					for _, st := range ss {
+						switch t := st.(type) {
+						case *pipeline.CommandStep:
+							if t.Signature != nil {
+								f := t.Signature.SignedFields
+								for a, b := 0, len(f)-1; a < b; a, b = a+1, b-1 {
+									f[a], f[b] = f[b], f[a]
+								}
+							}
+						case *pipeline.GroupStep:
+							rev(t.Steps)
+						}
+					}
+				}
+				rev(shared.Steps)
+			}
 			ks, _ := key.verify.(jwk.Set)
 			before := c19snapshot(om) + c19snapshot(*shared)
 			jBefore, _ := json.Marshal(shared)
